@@ -187,3 +187,21 @@ def pinv4(A4):
     C = P[:n, :m]
     D = P[:n, m:]
     return np.stack([C.real, C.imag, D.real, D.imag], axis=-1)
+
+
+def state_snapshot(obj, depth=0):
+    """Structural snapshot of an object's state (for before/after comparisons): primitives as they are,
+    arrays by content hash, nested objects by (class name, snapshot of their __dict__)."""
+    if depth > 5:
+        return "..."
+    if obj is None or isinstance(obj, (bool, int, float, str)):
+        return obj
+    if isinstance(obj, np.ndarray) or type(obj).__name__ == "SparseQuaternionMatrix":
+        return ("array", ahash(obj))
+    if isinstance(obj, (list, tuple)):
+        return [state_snapshot(x, depth + 1) for x in obj]
+    if isinstance(obj, dict):
+        return {str(k): state_snapshot(v, depth + 1) for k, v in obj.items()}
+    if hasattr(obj, "__dict__"):
+        return (type(obj).__name__, {k: state_snapshot(v, depth + 1) for k, v in vars(obj).items()})
+    return repr(type(obj))
